@@ -202,6 +202,16 @@ func carryTemplate(c *core.Ctx, r *core.Report, fn *ssa.Function, k cell, what s
 		if _, isRet := e.Instr.(*ssa.Return); !isRet {
 			continue
 		}
+		if ret := e.Instr.(*ssa.Return); e.Count.Lo == 0 && e.Count.Hi == 0 && len(ret.Results) == 1 {
+			// nothing due is withheld and nothing carried is paid out: the value returned is this tick's own input
+			// (a call of the wrapped function value), so what is carried stays as it is
+			if call, isCall := noConv(ret.Results[0]).(*ssa.Call); isCall && an.Callee(call) == nil && !call.Call.IsInvoke() {
+				if _, isSig := call.Call.Value.Type().Underlying().(*types.Signature); isSig {
+					r.OK(key+"#pass-through", an.Pos(c, ret), "this return hands on the wrapped value unchanged; the carried %s is left as it is", what)
+					continue
+				}
+			}
+		}
 		if e.Count.Lo != 1 || e.Count.Hi != 1 {
 			ok = false
 			r.Violation(key+"#once", an.Pos(c, e.Instr), "on paths to this return the carried %s is stored %s times (expected exactly once): the difference between what was due and what was emitted on this tick is not carried to later ticks", what, e.Count)
@@ -298,6 +308,11 @@ func nonNegReturns(c *core.Ctx, r *core.Report, fn *ssa.Function, nonneg func(v 
 
 func returnNonNeg(ret *ssa.Return, v ssa.Value, nonneg func(v ssa.Value) (bool, string)) (bool, string) {
 	v = noConv(v)
+	if nonneg != nil {
+		if ok, why := nonneg(v); ok {
+			return true, why
+		}
+	}
 	// a result of a same-module helper: every return of the helper must be non-negative at that position
 	if ex, ok := v.(*ssa.Extract); ok {
 		if call, isCall := ex.Tuple.(*ssa.Call); isCall {
